@@ -13,7 +13,7 @@
    that attains it.  Not proved: anything about depths where the null move applies (speculative by design). *)
 From Coq Require Import Permutation.
 From Walleye Require Import Model.Search Spec.Minimax Proofs.SortProofs Proofs.DrawTableProofs Proofs.SearchBasics
-     Proofs.AlphaBeta Proofs.TableRestored Proofs.RootProofs Proofs.PVS Proofs.OhCongruence Proofs.PVSRoot Gen.ZobristTable.
+     Proofs.AlphaBeta Proofs.TableRestored Proofs.RootProofs Proofs.PVS Proofs.OhCongruence Proofs.PVSRoot Proofs.ClockSim Gen.ZobristTable.
 Open Scope Z_scope.
 
 (* the executable oracle against the readable definition: for every position, depth, ply, record and window *)
@@ -114,6 +114,23 @@ Theorem C12_last_score_of_each_depth_is_exact : forall zt osort,
   e = A.
 Proof. exact unlimited_scores_exact. Qed.
 
+(* the same under a clock: for every expiry index k, an iteration of depth 1..3 at whose end the clock has not
+   expired (quiet: every consultation so far was answered "not yet") reports the exact value and sends a move
+   attaining it - an interrupted iteration is cut short, never wrong (C07_no_taint) *)
+Theorem C12_timed_iteration_reports_the_exact_value : forall zt osort,
+  (forall i l, Permutation l (osort i l)) ->
+  forall k fuel F first t d b ms0 ms ws A r o r2,
+  1 <= d <= 3 -> 1 + Z.of_nat F <= 100 -> dt_nonneg t ->
+  generate_moves zt b AllMoves <> [] ->
+  Forall2 same_move ms0 (generate_moves zt b AllMoves) -> Permutation ms0 ms ->
+  Forall2 (fun m x => negamax zt F m (d - 1) 1 t = Some x) (generate_moves zt b AllMoves) ws -> is_max A (map Z.opp ws) ->
+  dt_equiv (table (r_s r)) t ->
+  root_moves zt osort k fuel first ms d NEG_INF r = Ok (o, r2) -> quiet k (r_s r2) ->
+  exists r' mov line evs x,
+    o = Some r' /\ r_events r' = Info d A line :: Send mov :: evs /\ r_best r' = Some mov /\
+    In mov ms /\ negamax zt F mov (d - 1) 1 t = Some x /\ - x = A.
+Proof. exact timed_iteration_value. Qed.
+
 Theorem C12_pv_mark_changes_ordering_field_only : forall best l, Forall2 same_move (mark_pv best l) l.
 Proof. exact mark_pv_same. Qed.
 
@@ -140,6 +157,7 @@ Print Assumptions C12_search_honours_the_window.
 Print Assumptions C12_quiescence_is_the_clamped_value.
 Print Assumptions C12_iteration_reports_the_exact_value.
 Print Assumptions C12_last_score_of_each_depth_is_exact.
+Print Assumptions C12_timed_iteration_reports_the_exact_value.
 Print Assumptions C12_pv_mark_changes_ordering_field_only.
 Print Assumptions C12_oracle_is_minimax.
 Print Assumptions C12_oracle_answers.
